@@ -2,6 +2,7 @@
 # runs every stored mutant against the check(s) its meta.json says detect it
 cd /verif
 for d in seeded/*/; do
+  [ -n "$1" ] && ! echo "$d" | grep -Eq "$1" && continue
   n=$(basename $d)
   ids=$(python3 - "$d" <<'P'
 import json,sys
